@@ -22,7 +22,7 @@ RULE = ("(a) exhaustive: all call sequences of length <= 3 over 6 actions x cate
         "(broker, category, budget, sequence); trivial = none")
 ASSUMPTIONS = ["Redis and RabbitMQ are wire-level fakes", "broker calls are counted by harness-side recorders at the broker boundary (top level only)"]
 EVAL_COUNTER = "calls_judged"
-REQUIRED = ["calls_judged", "refusals_checked", "second_actions_checked", "eager_sequences", "callback_orders_checked", "eager_in_dependency", "sequences_with_refused_retry", "category_by_plain_name", "overdrawn_handles", "sequences_with_failing_callback"]
+REQUIRED = ["calls_judged", "refusals_checked", "second_actions_checked", "eager_sequences", "callback_orders_checked", "eager_in_dependency", "sequences_with_refused_retry", "category_by_plain_name", "overdrawn_handles", "sequences_with_failing_callback", "sequences_repeating_an_equal_outcome"]
 CASE_TIMEOUT = 120
 
 ACTIONS = ("ack", "nack", "reject", "reschedule", "retry", "force_retry")
@@ -48,6 +48,8 @@ def gen_cases(tier, seed):
                 pres.append(p[:pos] + ("X",) + p[pos:])
     # ... and with ONE callable object registered more than once ("B")
     pres += [tuple(x) for x in ("BBR", "BBE", "BRB", "BAB", "BBRA", "BABR", "ABBR", "RBB", "BBRB")]
+    # the same outcome registered again (equal value / the very same exception object), callbacks in between
+    pres += [tuple(x) for x in ("rSr", "rAr", "eSe", "eAe", "rr", "ee", "rSrA", "SrAr", "rSeAr", "eSrAe", "rSRAr", "rFr", "rBBr", "eSeSe", "rSrSr")]
     # a failing callback in front of other callbacks and of the result store
     pres += [tuple(x) for x in ("FS", "FA", "FR", "FE", "FSR", "SFR", "FRS", "FFA", "RFS", "AFEA", "FBB")]
     for kind in (("mem",) if tier == "quick" else ("mem", "redis")):
@@ -177,6 +179,11 @@ async def eager_sequences(loop, kind, pres, out, stats, fps, samples):
                         steps_pre.append(["set_result", {"v": len(steps_pre)}])
                     elif ch == "E":
                         steps_pre.append(["set_exception", "KeyError", f"x{len(steps_pre)}"])
+                    elif ch == "r":
+                        # the SAME value as every other "r" of the sequence (an actor confirming its result)
+                        steps_pre.append(["set_result", {"v": "same"}])
+                    elif ch == "e":
+                        steps_pre.append(["set_exception_same", "KeyError", "same"])
                     elif ch == "F":
                         # a callback that fails: logged, and everything registered after it still happens
                         ci += 1
@@ -255,7 +262,7 @@ async def eager_sequences(loop, kind, pres, out, stats, fps, samples):
             for ch in pre:
                 if ch == "X":
                     continue
-                if ch in "RE":
+                if ch in "REre":
                     cbs_before_latest_set = ci
                 else:
                     ci += 1
@@ -282,7 +289,9 @@ async def eager_sequences(loop, kind, pres, out, stats, fps, samples):
                 if later[:1] != ["ack"]:
                     out.append(V("second_action_succeeded" if not later else "wrong_broker_calls", kind, f"{ctx}/redelivered-execution", f"{pre!r}+{action}: the redelivered message's execution answered with ack() through its own handle; terminal calls after the redelivery: {later} (expected ['ack'])"))
             # the stored bucket is the latest set_*
-            latest = next((ch for ch in reversed(pre) if ch in "RE"), None)
+            latest = next((ch.upper() for ch in reversed(pre) if ch in "REre"), None)
+            if "r" in pre or "e" in pre:
+                stats["sequences_repeating_an_equal_outcome"] += 1
             stores = [e for e in seg if e["k"] == "call" and e.get("op") == "store_bucket"]
             if latest is not None and stores:
                 b = stores[-1]["bucket"]
